@@ -33,3 +33,8 @@ func Output() string                           { return "" }
 // IntMode lets the engine discharge queries with the mathematical-integer
 // printer whenever its no-wrap interval analysis succeeds (natively a no-op).
 func IntMode(on bool) {}
+
+// Exists asks the solver whether the path condition together with c is
+// satisfiable (an existential query over the symbolic variables c mentions).
+// Natively it can only report the truth of c under the witness.
+func Exists(c bool) bool { return c }
